@@ -644,6 +644,11 @@ func rangeBoundaryOK(s string) bool {
 		}
 		return true
 	}
+	// integer-value has no leading zeros ("0" / non-zero-digit *DIGIT); they
+	// would also be read as octal when the boundary is converted with base 0.
+	if len(intPart) > 1 && intPart[0] == '0' {
+		return false
+	}
 	return allDigits(intPart) && (!hasFrac || allDigits(fracPart))
 }
 
